@@ -58,7 +58,10 @@ def gen_dry_study(rng, i):
         st["restart"] = rng.random() < 0.45
     h, u, t, a = MATRIX[(i * 7) % len(MATRIX)]
     case.update({"hashws": h, "usetmp": u, "throttle": t, "attempts": a, "rlimit": rng.choice([0, 1, 2]),
-                 "kind": "dry", "detached": i % 3 == 1})
+                 "kind": "dry"})
+    # confirmation flags x launch path: on the unchanged tree --dry implies "launch" whatever -y / -n say
+    conf, det = [(c, dd) for c in ("-y", "", "-n") for dd in (False, True)][(i + i // 6) % 6]
+    case.update({"conf": conf, "detached": det})
     return case
 
 
@@ -100,8 +103,9 @@ def run_pair(job):
                "E2E_POLL_SLEEP": "1" if which == "dry" else str(e2e.POLL_SLEEP),
                "E2E_STUDY_DIR": out, "E2E_SNAP_DIR": os.path.join(d, which + ".snap"),
                "E2E_MAX_POLLS": "60", "E2E_SCRIPTED": os.path.join(d, which + ".script.json")}
+        conf = case.get("conf", "-y") if which == "dry" else "-y"
         argv = ["run"] + (["--dry"] if which == "dry" else []) + \
-               ["-fg", "-y", "-s", e2e.POLL_SLEEP, "--attempts", case["attempts"], "--rlimit", case["rlimit"],
+               ["-fg"] + ([conf] if conf else []) + ["-s", e2e.POLL_SLEEP, "--attempts", case["attempts"], "--rlimit", case["rlimit"],
                 "--throttle", case["throttle"], "-o", out]
         if case["hashws"]:
             argv.append("--hashws")
@@ -125,9 +129,9 @@ def run_pair(job):
             argv0 = [a for a in argv if a != "-fg"]
             rc0, tail0 = e2e.launch("maestro", argv0, d, {"PATH": bind + os.pathsep + os.environ.get("PATH", ""),
                                                          "E2E_SCRIPTED": env["E2E_SCRIPTED"]},
-                                    logfile=os.path.join(d, "run.log"))
+                                    stdin_text="", logfile=os.path.join(d, "run.log"))
             import time
-            for _ in range(100):                  # start_process does not wait for the shell it starts
+            for _ in range(50):                   # start_process does not wait for the shell it starts
                 if rc0 != 0 or os.path.exists(os.path.join(d, "stub.log")):
                     break
                 time.sleep(0.1)
@@ -138,7 +142,7 @@ def run_pair(job):
             else:
                 rc, tail = e2e.launch("conductor", ["-t", 1, out], d, env, logfile=os.path.join(d, "run.log"))
         else:
-            rc, tail = e2e.launch("maestro", argv, d, env, logfile=os.path.join(d, "run.log"))
+            rc, tail = e2e.launch("maestro", argv, d, env, stdin_text="", logfile=os.path.join(d, "run.log"))
         res[which] = {"rc": rc, "tail": tail[-1200:]}
     return res
 
@@ -308,7 +312,7 @@ def judge(case, d, res):
 
 
 def slim(case):
-    return {k: case.get(k) for k in ("steps", "params", "attempts", "throttle", "rlimit", "hashws", "usetmp", "shape", "detached")}
+    return {k: case.get(k) for k in ("steps", "params", "attempts", "throttle", "rlimit", "hashws", "usetmp", "shape", "detached", "conf")}
 
 
 def run_cases(ck, cases, tag="C17_e2e"):
@@ -326,7 +330,8 @@ def run_cases(ck, cases, tag="C17_e2e"):
             viol, prob, ecase, info = [], ["harness could not interpret the runs: %r" % (e,)], None, {"polls": 0, "instances": 0}
         rec = dict(slim(case), rc_dry=res["dry"]["rc"], rc_real=res["real"]["rc"])
         if viol:
-            ck.violation("C17 e2e (maestro run --dry%s%s%s -t %d -a %d): %s" % (
+            ck.violation("C17 e2e (maestro run --dry%s%s%s%s -t %d -a %d): %s" % (
+                " " + case.get("conf", "-y") if case.get("conf", "-y") else "",
                 " [detached: stored, then the conductor entry point]" if case.get("detached") else " -fg",
                 " --hashws" if case["hashws"] else "", " --usetmp" if case["usetmp"] else "",
                 case["throttle"], case["attempts"], viol[0]), dict(rec, all=viol[:6]))
@@ -338,6 +343,7 @@ def run_cases(ck, cases, tag="C17_e2e"):
         ck.count("c17e2e:" + json.dumps(slim(case), sort_keys=True), nontrivial=info["instances"] >= 2)
         dist["hashws=%s,usetmp=%s" % (case["hashws"], case["usetmp"])] += 1
         dist["path:" + ("detached" if case.get("detached") else "foreground")] += 1
+        dist["confirm:" + (case.get("conf", "-y") or "(none)")] += 1
         dist["throttle:%d" % case["throttle"]] += 1
         dist["attempts:%d" % case["attempts"]] += 1
         dist["instances:%02d" % min(info["instances"], 20)] += 1
@@ -371,6 +377,8 @@ def run_e2e(ck):
     n = QUICK_N if ck.tier != "thorough" else THOROUGH_N
     cases = [gen_dry_study(rng, i) for i in range(n)]
     ck.cov["e2e_dry_runs"] = run_cases(ck, cases)
+    na = API_QUICK_N if ck.tier != "thorough" else API_THOROUGH_N
+    ck.cov["e2e_api"] = run_api_cases(ck, [gen_api_case(rng, i) for i in range(na)])
     ck.cov["e2e_rule"] = ("seeded studies (parameterised steps, funnels, restart commands, scheduled + local steps) through "
                           "`maestro run --dry -fg -y` and a real run of the same study under the launcher's scripted "
                           "adapter over {--hashws} x {--usetmp} x throttle 0-2 x attempts 1-3: no submit/check_jobs, no "
@@ -388,10 +396,190 @@ def replay_e2e(ck, d):
     """re-run one stored case (the `case` object of a replay file written for a run_e2e violation)"""
     d = d.get("case", d)
     d.setdefault("shape", "replay")
-    dist = run_cases(ck, [d], tag="C17_e2e_replay")
+    if d.get("kind") == "api":
+        dist = run_api_cases(ck, [d], tag="C17_api_replay")
+    else:
+        dist = run_cases(ck, [d], tag="C17_e2e_replay")
     print(json.dumps(dist))
     for w, c in ck.concrete:
         print("VIOLATION:", w, json.dumps(c.get("all", []))[:1500])
     for w, _, det in ck.corr_failures:
         print("MISMATCH:", w, det[-1500:])
     return 1 if (ck.concrete or ck.corr_failures) else 0
+
+
+# ----------------------------------------------------------------------------
+# API level: configure_study called MORE THAN ONCE -- the last call decides
+# ----------------------------------------------------------------------------
+API_QUICK_N, API_THOROUGH_N = 8, 96
+
+
+def gen_api_case(rng, i):
+    case = gen_dry_study(rng, i)
+    flips = [("dry", False, True), ("dry", True, False), ("hashws", False, True), ("usetmp", True, False),
+             ("dry", False, True), ("usetmp", False, True), ("hashws", True, False), ("dry", True, False)]
+    key, a, b = flips[i % len(flips)]
+    first = {"dry": rng.random() < 0.5, "hashws": rng.random() < 0.5, "usetmp": rng.random() < 0.5}
+    second = dict(first)
+    first[key], second[key] = a, b
+    if rng.random() < 0.4:                       # toggle a second setting as well
+        k2 = rng.choice([k for k in first if k != key])
+        second[k2] = not first[k2]
+    case.update({"kind": "api", "first": first, "second": second, "reload": i % 2 == 1,
+                 "hashws": second["hashws"], "usetmp": second["usetmp"]})
+    return case
+
+
+def sub_api(d):
+    """sub-process: the calls of maestro.run_study with configure_study made twice (optionally with a
+    store / load_study in between), then the conductor loop, under the scripted adapter"""
+    import harness.e2e_launcher as L          # stubs time.sleep before maestrowf is imported
+    import logging
+    logging.disable(logging.CRITICAL)
+    case = json.load(open(os.path.join(d, "case.json")))
+    L._register_scripted(os.path.join(d, "api.script.json"))
+    from maestrowf.specification import YAMLSpecification
+    from maestrowf.datastructures.core import Study
+    from maestrowf.datastructures.environment import Variable
+    from maestrowf.conductor import Conductor
+    out = os.path.join(d, "api")
+    res = {}
+    try:
+        spec = YAMLSpecification.load_specification(os.path.join(d, "spec.yaml"))
+        env = spec.get_study_environment()
+        env.remove("OUTPUT_PATH")
+        env.add(Variable("OUTPUT_PATH", out))
+        env.add(Variable("SPECROOT", d))
+        study = Study(spec.name, spec.description, studyenv=env, parameters=spec.get_parameters(),
+                      steps=spec.get_study_steps(), out_path=out)
+        study.setup_workspace()
+
+        def conf(c):
+            study.configure_study(throttle=case["throttle"], submission_attempts=case["attempts"],
+                                  restart_limit=case["rlimit"], use_tmp=c["usetmp"], hash_ws=c["hashws"], dry_run=c["dry"])
+        conf(case["first"])
+        study.setup_environment()
+        batch = dict(spec.batch)
+        if case["reload"]:
+            Conductor.store_study(study)
+            Conductor.store_batch(out, batch)
+            study = Conductor.load_study(out)
+            batch = Conductor.load_batch(out)
+        conf(case["second"])
+        conductor = Conductor(study)
+        conductor.initialize(batch, 1)
+        status = conductor.monitor_study()
+        conductor.cleanup()
+        res["status"] = status.name
+    except BaseException as e:
+        res["exc"] = "%s: %s" % (type(e).__name__, str(e)[:300])
+    json.dump(res, open(os.path.join(d, "api.result.json"), "w"))
+
+
+def run_api(job):
+    case, d = job
+    shutil.rmtree(d, ignore_errors=True)
+    os.makedirs(d)
+    with open(os.path.join(d, "spec.yaml"), "w") as f:
+        f.write(spec_text(case, d))
+    with open(os.path.join(d, "case.json"), "w") as f:
+        json.dump(case, f)
+    with open(os.path.join(d, "api.script.json"), "w") as f:
+        json.dump({"log": os.path.join(d, "api.adapter.log"), "default": "FINISHED"}, f)
+    import subprocess
+    env = e2e.base_env({"E2E_POLL_SLEEP": "1", "E2E_MAX_POLLS": "80", "E2E_STUDY_DIR": os.path.join(d, "api"),
+                        "E2E_SNAP_DIR": os.path.join(d, "api.snap")})
+    try:
+        p = subprocess.run([e2e.PY, "-m", "harness.props.c17_e2e", "api", d], cwd=common.VERIF, env=env, text=True,
+                           errors="replace", stdout=subprocess.PIPE, stderr=subprocess.STDOUT, timeout=150)
+        rc, tail = p.returncode, (p.stdout or "")[-800:]
+    except subprocess.TimeoutExpired:
+        rc, tail = 124, "timeout"
+    try:
+        res = json.load(open(os.path.join(d, "api.result.json")))
+    except Exception:
+        res = {"exc": "no result (rc=%d): %s" % (rc, tail)}
+    res["rc"] = rc
+    return res
+
+
+def judge_api(case, d, res):
+    viol, prob = [], []
+    last = case["second"]
+    what = "configure_study(%s) then %sconfigure_study(%s)" % (
+        case["first"], "store_study / load_study, " if case["reload"] else "", last)
+    if res.get("rc") == 99:
+        return ["%s: the study did not terminate" % what], []
+    if "exc" in res:
+        return ["%s: %s" % (what, res["exc"])], []
+    log = read_log(os.path.join(d, "api.adapter.log")) or []
+    calls = Counter(e.get("call") for e in log)
+    try:
+        inst = e2e.read_graph(os.path.join(d, "api", e2e.STUDY + ".pkl"))[0]
+    except Exception as e:
+        return [], ["%s: snapshot unreadable: %r" % (what, e)]
+    states = sorted({nd["state"] for nd in inst})
+    ran = os.path.exists(os.path.join(d, "ran.log"))
+    if last["dry"]:
+        for c in ("submit", "check_jobs"):
+            if calls.get(c):
+                viol.append("%s: the LAST configuration is a dry run but %d %s call(s) were made" % (what, calls[c], c))
+        if ran:
+            viol.append("%s: the LAST configuration is a dry run but step commands were executed" % what)
+        if states != ["DRYRUN"] or res.get("status") != "FINISHED":
+            viol.append("%s: dry run ended %s with states %r" % (what, res.get("status"), states))
+    else:
+        nsched = sum(1 for nd in inst if any(e.get("call") == "write_script" and e.get("scheduled") for e in log))
+        if "DRYRUN" in states:
+            viol.append("%s: the LAST configuration is a real run but steps ended DRYRUN" % what)
+        elif states != ["FINISHED"] or res.get("status") != "FINISHED":
+            viol.append("%s: real run ended %s with states %r" % (what, res.get("status"), states))
+        if nsched and not calls.get("submit"):
+            viol.append("%s: the LAST configuration is a real run but nothing was submitted" % what)
+    hashed = [nd for nd in inst if nd["params"]]
+    import re
+    for nd in hashed:
+        is_hash = bool(re.fullmatch(r"[0-9a-f]{32}", os.path.basename(nd["ws"])))
+        if is_hash != bool(last["hashws"]):
+            viol.append("%s: workspace of %s is %s" % (what, nd["name"], os.path.basename(nd["ws"])))
+            break
+    tmp = os.path.realpath(os.path.join(common.WORK, "tmp"))
+    for e in log:
+        if e.get("call") == "write_script":
+            in_tmp = os.path.realpath(e["dir"]).startswith(tmp + os.sep)
+            if in_tmp != bool(last["usetmp"]):
+                viol.append("%s: script of %s written to %s" % (what, e["inst"], e["dir"]))
+                break
+    return viol, prob
+
+
+def run_api_cases(ck, cases, tag="C17_api"):
+    tag = e2e.utag(tag)
+    work = os.path.join(common.WORK, tag + "_runs")
+    shutil.rmtree(work, ignore_errors=True)
+    jobs = [(c, os.path.join(work, "a%d" % i)) for i, c in enumerate(cases)]
+    dist = Counter()
+    for (case, d), res in zip(jobs, e2e.pmap(run_api, jobs)):
+        try:
+            viol, prob = judge_api(case, d, res)
+        except Exception as e:
+            viol, prob = [], ["harness could not interpret the API run: %r" % (e,)]
+        rec = dict(slim(case), first=case["first"], second=case["second"], reload=case["reload"], kind="api")
+        if viol:
+            ck.violation("C17 e2e (API): " + viol[0], dict(rec, all=viol[:6]))
+        elif prob:
+            ck.mismatch("C17 e2e (API): " + prob[0], rec, "")
+        ck.count("c17api:" + json.dumps(rec, sort_keys=True), nontrivial=True)
+        dist["last:dry=%s" % case["second"]["dry"]] += 1
+        dist["toggled:" + ",".join(k for k in case["first"] if case["first"][k] != case["second"][k])] += 1
+        dist["reload:%s" % case["reload"]] += 1
+        shutil.rmtree(d, ignore_errors=True)
+    shutil.rmtree(work, ignore_errors=True)
+    e2e.sweep()
+    return dict(sorted(dist.items()))
+
+
+if __name__ == "__main__":
+    import sys
+    if len(sys.argv) > 2 and sys.argv[1] == "api":
+        sub_api(sys.argv[2])
